@@ -34,7 +34,7 @@ def proj(m):
     return out
 
 
-def run_filter(h, words, dct, ncat, cats, rng, position_coded):
+def run_filter(h, words, dct, ncat, cats, rng, position_coded, dup=False, single=False):
     from depccg.types import Token, ScoringResult
     doc = [[Token.of_word(w) for w in sent] for sent in words]
     scores = []
@@ -50,10 +50,17 @@ def run_filter(h, words, dct, ncat, cats, rng, position_coded):
     tag_in = [proj(s.tag_scores) for s in scores]
     dep_in = [proj(s.dep_scores) for s in scores]
     cdict = {w: [cats[c - 1] for c in cs] for w, cs in dct.items()}
+    if dup:
+        # a category listed twice for a word means the same as listing it once
+        cdict = {w: cs + cs[:1] for w, cs in cdict.items()}
     ev = {'e': 'filter', 'words': words, 'dict': {w: sorted(cs) for w, cs in dct.items()}, 'ncat': ncat, 'tag_in': tag_in, 'dep_in': dep_in,
           'raised': False, 'tag_out': tag_in, 'dep_out': dep_in, 'words_out': words}
     try:
-        d2, s2 = h.parsing.apply_category_filters(doc, scores, list(cats), cdict)
+        if single:
+            # the single-sentence calling form: a bare token list and a bare ScoringResult
+            d2, s2 = h.parsing.apply_category_filters(doc[0], scores[0], list(cats), cdict)
+        else:
+            d2, s2 = h.parsing.apply_category_filters(doc, scores, list(cats), cdict)
         ev['tag_out'] = [proj(s.tag_scores) for s in s2]
         ev['dep_out'] = [proj(s.dep_scores) for s in s2]
         ev['words_out'] = [[t.word for t in sent] for sent in d2]
@@ -91,14 +98,14 @@ def run(tier):
     n_tlc = len(use)
     # random larger documents over the real inventory
     tg = [Category.parse(s) for s in inventory.targets('en')]
-    vocab = ['w%d' % i for i in range(12)]
+    vocab = ['w%d' % i for i in range(8)] + ['the', 'The', 'THE', 'Dog', 'dog']
     n_rand = 300 if tier == 'quick' else 3000
     for _ in range(n_rand):
         ncat = rng.choice([5, 20, len(tg)])
         cats = tg[:ncat]
         words = [[rng.choice(vocab) for _ in range(rng.randint(1, 6))] for _ in range(rng.randint(1, 4))]
         dct = {w: sorted(rng.sample(range(1, ncat + 1), rng.randint(0, min(ncat, 6)))) for w in rng.sample(vocab, rng.randint(0, 8))}
-        ev = run_filter(h, words, dct, ncat, cats, rng, False)
+        ev = run_filter(h, words, dct, ncat, cats, rng, False, dup=rng.random() < 0.3, single=len(words) == 1 and rng.random() < 0.7)
         add(ev, {'words': words, 'dict': {w: len(c) for w, c in dct.items()}, 'ncat': ncat, 'src': 'random'})
     # shipped strings: well-formed, and dictionary categories belong to the inventory (by value)
     n_ship = 0
